@@ -4,6 +4,18 @@ CHECKS = [
   'text': 'Static must-pass-through, who-may-call and exact-path-structure rules on the MIR of satisfy_with_env, WitnessValues::is_consistent, to_witness_node, insert_witness and the witness arm of code generation. Decides the structural necessary conditions (type check gates population, nominal comparison, skip only undeclared names, delivery by the node\'s own name); does not decide run-time bit equality.',
   'note': TB + 'Assumes Converter::convert_witness is called once per witness node with that node\'s name.',
   'technique': 'static analysis: dominance/must-pass-through + path-structure rules over rustc MIR (custom rustc_private driver)'},
+ {'property_id': 'C02',
+  'text': 'Static path rule on satisfy_with_env (every success path must finalize with a value-pruning finalizer; the env=None arm does not: known finding D5), structure-preservation of the two node converters (only convert_witness/disconnect/data overridden), commit() reads the same field and takes no witness input, frozen who-may-create of inference contexts. Decides simfony-side necessary conditions of CMR equality and decodability; decoder and Bit Machine are trusted.',
+  'note': TB + 'API summaries of finalize_pruned/finalize_unpruned/Node::convert were read in simplicity-lang 0.4.0 sources.',
+  'technique': 'static analysis: path-sensitive must-pass-through, who-may-call and impl-inventory rules over rustc MIR'},
+ {'property_id': 'C17',
+  'text': 'Static keyword-capture analysis of the PEG grammar AST (look-aheads and ordered-choice commitment in front of every identifier role; guard classes must exclude every identifier character), identifier-shape check, plus MIR rules: names are built from the matched text unchanged, raw-string access to names only at frozen sites, parentheses transparent in analysis and code generation. Decides acceptance-side opacity for all identifiers; run-time invariance under renaming is argued, not mechanised.',
+  'note': TB + 'PEG semantics of pest (ordered choice commits, look-ahead consumes nothing).',
+  'technique': 'static analysis: PEG look-ahead/ordered-choice capture analysis on the pest_meta AST + who-may-call rules over MIR'},
+ {'property_id': 'C18',
+  'text': 'Static path rules on satisfy_with_env: Some(env) => finalize_pruned(populated node, that env), None => finalize_unpruned; finalizer Result propagated by `?`; returned program is the finalizer output; witness type check gates both arms. Necessary conditions only: the pruning behaviour itself lives in simplicity-lang and is not decided.',
+  'note': TB,
+  'technique': 'static analysis: path-sensitive argument-provenance and must-pass-through rules over rustc MIR'},
 ]
 NOT_APPLICABLE = []
 NOTES = 'All checks are static: they read /repo through a rustc_private MIR-facts driver and the pest grammar AST; nothing executes simfony code. See DESIGN.md.'
